@@ -73,7 +73,7 @@ func (e *protoExec) op(op string) string {
 		return i, i >= 0 && i < e.n
 	}
 	switch f[0] {
-	case "p.newterm", "p.lead", "p.elect", "p.add", "p.write", "p.restart", "p.cut":
+	case "p.newterm", "p.lead", "p.elect", "p.electm", "p.add", "p.write", "p.racewrite", "p.restart", "p.cut":
 		// the model talks about settled states: everything deliverable has been delivered
 		if !e.c.WaitSettled(8 * time.Second) {
 			e.unrel = true
@@ -105,51 +105,92 @@ func (e *protoExec) op(op string) string {
 			rf = 1
 		}
 		return mark(e.c.BecomeLeader(i, int64(atoi(f[2])), uint32(rf), fm, 1500*time.Millisecond))
-	case "p.elect":
+	case "p.elect", "p.electm":
 		want, ok := node(f[1])
 		if !ok {
 			return mark("err:no-such-node")
 		}
 		term := int64(atoi(f[2]))
+		var members, removed []int
+		if f[0] == "p.elect" {
+			for i := 0; i < e.n; i++ {
+				members = append(members, i)
+			}
+		} else {
+			for _, x := range strings.Split(kvs["members"], ",") {
+				if i, ok := node(x); ok && x != "" && x != "_" {
+					members = append(members, i)
+				}
+			}
+			for _, x := range strings.Split(kvs["removed"], ",") {
+				if i, ok := node(x); ok && x != "" && x != "_" {
+					removed = append(removed, i)
+				}
+			}
+		}
+		isMember := map[int]bool{}
+		for _, m := range members {
+			isMember[m] = true
+		}
+		all := append([]int{}, members...)
+		for _, r := range removed {
+			if !isMember[r] {
+				all = append(all, r)
+			}
+		}
 		type resp struct {
 			i    int
 			head *proto.EntryId
 		}
-		var heads []resp
-		for i := 0; i < e.n; i++ {
+		var answers []resp
+		for _, i := range all {
 			if e.c.IsCut(i) {
 				continue
 			}
 			r := e.c.NewTerm(i, term)
 			if strings.HasPrefix(r, "head=") {
 				p := strings.Split(strings.TrimPrefix(r, "head="), ":")
-				heads = append(heads, resp{i, &proto.EntryId{Term: int64(atoi(p[0])), Offset: int64(atoi(p[1]))}})
+				answers = append(answers, resp{i, &proto.EntryId{Term: int64(atoi(p[0])), Offset: int64(atoi(p[1]))}})
 			}
 		}
-		if 2*len(heads) <= e.n {
+		// newTermQuorum: a majority of the ensemble and the nodes being removed (fact)
+		if len(answers) < len(all)/2+1 {
 			return mark("no-quorum")
 		}
+		var cands []resp
+		for _, a := range answers {
+			if isMember[a.i] {
+				cands = append(cands, a)
+			}
+		}
+		if len(cands) == 0 {
+			return mark("no-quorum")
+		}
+		// selectNewLeader: the highest head; ties broken towards the wanted node
 		better := func(a, b *proto.EntryId) bool { return a.Term > b.Term || (a.Term == b.Term && a.Offset > b.Offset) }
-		best := heads[0]
-		for _, h := range heads {
+		best := cands[0]
+		for _, h := range cands {
 			if h.i == want {
 				best = h
 			}
 		}
-		for _, h := range heads {
+		for _, h := range cands {
 			if better(h.head, best.head) {
 				best = h
 			}
 		}
 		fm := map[string]*proto.EntryId{}
-		for _, h := range heads {
+		for _, h := range cands {
 			if h.i != best.i {
 				fm[fmt.Sprintf("n%d", h.i)] = h.head
 			}
 		}
-		r := e.c.BecomeLeader(best.i, term, uint32(e.n), fm, 2500*time.Millisecond)
+		r := e.c.BecomeLeader(best.i, term, uint32(len(members)), fm, 2500*time.Millisecond)
 		if r == "ok" {
 			return mark(fmt.Sprintf("leader=%d", best.i))
+		}
+		if r == "timeout" {
+			return mark("no-quorum")
 		}
 		return mark(r)
 	case "p.add":
@@ -170,6 +211,12 @@ func (e *protoExec) op(op string) string {
 			return mark("err:no-such-node")
 		}
 		return mark(e.c.Write(i, atoi(f[2]), 1500*time.Millisecond))
+	case "p.racewrite":
+		i, ok := node(f[1])
+		if !ok {
+			return mark("err:no-such-node")
+		}
+		return mark(e.c.RaceWriteNewTerm(i, atoi(f[2]), int64(atoi(f[3]))))
 	case "p.cut":
 		if i, ok := node(f[1]); ok {
 			e.c.Cut(i)
@@ -314,17 +361,7 @@ func (protoTarget) Timeout() time.Duration { return 120 * time.Second }
 // C03: what a follower acknowledges is what the leader holds.
 type C03 struct{ protoTarget }
 
-func (C03) Generate(rng *rand.Rand, tier string) []core.Case {
-	n := 40
-	if tier == "thorough" {
-		n = 1200
-	}
-	var cases []core.Case
-	for i := 0; i < n; i++ {
-		cases = append(cases, core.Case{Name: fmt.Sprintf("proto-%d", i), Ops: genProtoCase(rng, i%3 == 0)})
-	}
-	return cases
-}
+func (C03) Generate(rng *rand.Rand, tier string) []core.Case { return genProtoCases(rng, tier, "C03") }
 
 func (C03) Exec(ops []string, outs []string) { protoExecOps(ops, outs) }
 
@@ -383,6 +420,9 @@ func protoOracle(ops, impl []string, which string) string {
 	maxTerm := map[int]int{}      // highest term each node has answered
 	leaderOfTerm := map[int]int{} // term -> node that became leader in it
 	var visible []string          // what a read has shown (ids in log order)
+	entryTerm := map[string]int{} // id -> term of the entry (from the states)
+	shownBy := map[string]int{}   // id -> term of the leader whose read showed it first
+	swapped := false              // an election with nodes being removed has succeeded
 	for i, o := range ops {
 		if i >= len(impl) {
 			break
@@ -398,16 +438,28 @@ func protoOracle(ops, impl []string, which string) string {
 		case strings.HasPrefix(out, "err:other"):
 			return fmt.Sprintf("op %d (%s): %s", i, o, out)
 		}
+		want := func(p string) bool { return which == p }
 		switch f[0] {
+		case "p.racewrite":
+			// C04: the head a node reports when it is fenced is the end of its log, and stays it
+			if want("C04") && strings.HasPrefix(out, "head=") {
+				p := strings.Fields(out)
+				if len(p) == 2 && strings.TrimPrefix(p[0], "head=") != strings.TrimPrefix(p[1], "wal=") {
+					return fmt.Sprintf("op %d: n%s answered the new-term request with head %s but its log then ended at %s: the log grew after the node was fenced", i, f[1], strings.TrimPrefix(p[0], "head="), strings.TrimPrefix(p[1], "wal="))
+				}
+			}
 		case "p.write":
 			if out == "ok" {
 				acked[f[2]] = true
 			}
-		case "p.elect":
+		case "p.elect", "p.electm":
 			if strings.HasPrefix(out, "leader=") {
 				l, _ := strconv.Atoi(strings.TrimPrefix(out, "leader="))
 				t, _ := strconv.Atoi(f[2])
-				if prev, ok := leaderOfTerm[t]; ok && prev != l {
+				if kv := c20kv(f); kv["removed"] != "" && kv["removed"] != "_" {
+					swapped = true
+				}
+				if prev, ok := leaderOfTerm[t]; ok && prev != l && want("C05") {
 					return fmt.Sprintf("op %d: two leaders in term %d: n%d and n%d", i, t, prev, l)
 				}
 				leaderOfTerm[t] = l
@@ -420,12 +472,30 @@ func protoOracle(ops, impl []string, which string) string {
 				}
 				// C02: what a read has shown is never rolled back: the earlier view is a prefix
 				for k, id := range visible {
+					if !want("C02") {
+						break
+					}
 					if k >= len(ids) || ids[k] != id {
-						return fmt.Sprintf("op %d: a read on n%s no longer shows write %s at position %d, which an earlier read had shown (rolled back)", i, f[1], id, k)
+						why := ""
+						if et, ok := entryTerm[id]; ok && et < shownBy[id] {
+							why = fmt.Sprintf(" [the entry was written in term %d and only re-committed by the leader of term %d, which had written no entry of its own]", et, shownBy[id])
+						}
+						return fmt.Sprintf("op %d: a read on n%s no longer shows write %s at position %d, which an earlier read had shown (rolled back)%s", i, f[1], id, k, why)
 					}
 				}
 				if len(ids) > len(visible) {
 					visible = ids
+				}
+				rt := -1
+				for t, l := range leaderOfTerm {
+					if fmt.Sprint(l) == f[1] && t > rt {
+						rt = t
+					}
+				}
+				for _, id := range ids {
+					if _, ok := shownBy[id]; !ok {
+						shownBy[id] = rt
+					}
 				}
 				// C01: every acknowledged write is visible on the current leader (a deposed leader that has
 				// not learned of the newer term may still serve its older committed state)
@@ -436,7 +506,7 @@ func protoOracle(ops, impl []string, which string) string {
 						maxT, cur = t, l
 					}
 				}
-				if fmt.Sprint(cur) != f[1] {
+				if fmt.Sprint(cur) != f[1] || !want("C01") {
 					break
 				}
 				seen := map[string]bool{}
@@ -445,25 +515,67 @@ func protoOracle(ops, impl []string, which string) string {
 				}
 				for id := range acked {
 					if !seen[id] {
-						return fmt.Sprintf("op %d: the acknowledged write %s is not visible on the leader n%s", i, id, f[1])
+						why := ""
+						if swapped {
+							why = " [after a node-swap election: the removed node counts for the fencing majority but is no candidate]"
+						}
+						return fmt.Sprintf("op %d: the acknowledged write %s is not visible on the leader n%s%s", i, id, f[1], why)
 					}
 				}
 			}
 		case "p.state":
 			st := parseProtoState(out)
+			for _, s := range st {
+				for _, e := range s.log {
+					j := strings.Index(e, ":")
+					t, _ := strconv.Atoi(e[:j])
+					if _, ok := entryTerm[e[j+1:]]; !ok {
+						entryTerm[e[j+1:]] = t
+					}
+				}
+			}
 			for n, s := range st {
 				if _, ok := maxTerm[n]; !ok {
 					maxTerm[n] = -1
 				}
-				if s.term < maxTerm[n] {
+				if s.term < maxTerm[n] && want("C05") {
 					return fmt.Sprintf("op %d: the term of n%d went back from %d to %d", i, n, maxTerm[n], s.term)
 				}
 				maxTerm[n] = s.term
 			}
+			// C03: any two replicas agree on every entry at or below either one's commit offset
+			if want("C03") {
+				for a := range st {
+					for b := range st {
+						if a >= b || st[a].ctrl != "L" || st[b].ctrl != "L" || st[a].status != "leader" || st[b].status != "leader" {
+							continue
+						}
+						m := st[a].commit
+						if st[b].commit < m {
+							m = st[b].commit
+						}
+						for k := 0; k <= m && k < len(st[a].log) && k < len(st[b].log); k++ {
+							if st[a].log[k] != st[b].log[k] {
+								why := ""
+								older, ot := st[a], a
+								if st[b].term < st[a].term {
+									older, ot = st[b], b
+								}
+								if j := strings.Index(older.log[k], ":"); j > 0 {
+									if et, _ := strconv.Atoi(older.log[k][:j]); et < older.term {
+										why = fmt.Sprintf(" [n%d, leader of term %d, re-committed this entry of the older term %d and wrote none of its own]", ot, older.term, et)
+									}
+								}
+								return fmt.Sprintf("op %d: n%d (term %d) and n%d (term %d) both hold offset %d as committed, with different entries %s and %s%s", i, a, st[a].term, b, st[b].term, k, st[a].log[k], st[b].log[k], why)
+							}
+						}
+					}
+				}
+			}
 			nLeaders := map[int]int{}
 			for n, s := range st {
 				if s.ctrl == "L" && s.status == "leader" {
-					if prev, ok := nLeaders[s.term]; ok {
+					if prev, ok := nLeaders[s.term]; ok && want("C05") {
 						return fmt.Sprintf("op %d: n%d and n%d both lead term %d", i, prev, n, s.term)
 					}
 					nLeaders[s.term] = n
@@ -475,7 +587,7 @@ func protoOracle(ops, impl []string, which string) string {
 				}
 				// C03: a follower that acknowledged offset o holds the leader's entries up to o
 				for fo, ack := range s.cursors {
-					if fo >= len(st) || st[fo].term != s.term {
+					if fo >= len(st) || st[fo].term != s.term || !want("C03") {
 						continue
 					}
 					for k := 0; k <= ack && k < len(s.log); k++ {
@@ -489,7 +601,7 @@ func protoOracle(ops, impl []string, which string) string {
 					}
 				}
 				// commit offset: within the log, acknowledged by a quorum
-				if s.commit >= len(s.log) {
+				if s.commit >= len(s.log) && want("C03") {
 					return fmt.Sprintf("op %d: the commit offset %d of leader n%d is beyond its head %d", i, s.commit, n, len(s.log)-1)
 				}
 				// C01: acknowledged writes are in the log of the leader, at or below its commit offset
@@ -503,17 +615,20 @@ func protoOracle(ops, impl []string, which string) string {
 						higher = true
 					}
 				}
-				if !higher {
+				if !higher && want("C01") {
 					for id := range acked {
 						if k, ok := inLog[id]; !ok || k > s.commit {
-							return fmt.Sprintf("op %d: the acknowledged write %s is not in the committed log of the leader n%d (term %d)", i, id, n, s.term)
+							why := ""
+							if swapped {
+								why = " [after a node-swap election: the removed node counts for the fencing majority but is no candidate]"
+							}
+							return fmt.Sprintf("op %d: the acknowledged write %s is not in the committed log of the leader n%d (term %d)%s", i, id, n, s.term, why)
 						}
 					}
 				}
 			}
 		}
 	}
-	_ = which
 	return ""
 }
 
@@ -527,3 +642,120 @@ func (C03) Nontrivial(ops []string, outs []string) bool {
 	}
 	return false
 }
+
+// genProtoDirected adds the situations the single properties are about to a random script.
+func genProtoDirected(rng *rand.Rand, which string, i int) []string {
+	ops := genProtoCase(rng, i%3 == 0)
+	switch which {
+	case "C04":
+		// a client write racing with the fencing of its leader (the leader is cut off, so the outcome for the
+		// followers does not depend on timing)
+		n := 3
+		if strings.Contains(ops[0], "n=5") {
+			n = 5
+		}
+		var out []string
+		term := 100
+		id := 5000
+		for _, o := range ops {
+			out = append(out, o)
+			if strings.HasPrefix(o, "p.elect ") && rng.Intn(3) == 0 {
+				l := strings.Fields(o)[1]
+				term++
+				out = append(out, "p.settle", "p.cut "+l, fmt.Sprintf("p.racewrite %s %d %d", l, id, term), "p.heal "+l, "p.settle", "p.state")
+				id++
+				term++
+				out = append(out, fmt.Sprintf("p.elect %d %d", rng.Intn(n), term))
+			}
+		}
+		// the terms of the random part have to stay below the directed ones: renumber
+		return renumberTerms(out)
+	case "C01":
+		if i%4 == 1 {
+			// a node swap while the leader is away and the other member lags (known finding D-41 when the
+			// removed node is the only reachable holder of the committed entries)
+			return []string{"p.init n=4", "p.electm 0 1 members=0,1,2 removed=_", "p.cut 2", fmt.Sprintf("p.write 0 %d", 100+i), fmt.Sprintf("p.write 0 %d", 500+i), "p.state",
+				"p.cut 0", "p.heal 2", "p.electm 2 2 members=0,2,3 removed=1", "p.state", "p.read 2"}
+		}
+	case "C02":
+		if i%4 == 1 {
+			// a leader that only re-commits entries of older terms is followed by a leader with a higher head
+			// term (known finding D-40)
+			return []string{"p.init n=3", "p.elect 0 1", "p.cut 1", "p.cut 2", "p.write 0 100", "p.cut 0", "p.heal 1", "p.heal 2", "p.elect 1 2", "p.cut 2",
+				"p.write 1 200", "p.cut 1", "p.heal 0", "p.heal 2", "p.elect 0 3", "p.state", "p.read 0", "p.cut 0", "p.heal 1", "p.elect 1 4", "p.state", "p.read 1"}
+		}
+	}
+	return ops
+}
+
+// renumberTerms makes the terms of the election ops strictly increasing in script order.
+func renumberTerms(ops []string) []string {
+	t := 0
+	res := make([]string, len(ops))
+	for i, o := range ops {
+		f := strings.Fields(o)
+		switch f[0] {
+		case "p.elect":
+			t++
+			f[2] = fmt.Sprint(t)
+		case "p.racewrite":
+			t++
+			f[3] = fmt.Sprint(t)
+		case "p.newterm", "p.lead":
+			f[2] = fmt.Sprint(t)
+		case "p.add":
+			f[2] = fmt.Sprint(t)
+		}
+		res[i] = strings.Join(f, " ")
+	}
+	return res
+}
+
+func genProtoCases(rng *rand.Rand, tier, which string) []core.Case {
+	n := 40
+	if tier == "thorough" {
+		n = 1200
+	}
+	var cases []core.Case
+	for i := 0; i < n; i++ {
+		cases = append(cases, core.Case{Name: fmt.Sprintf("proto-%s-%d", which, i), Ops: genProtoDirected(rng, which, i)})
+	}
+	return cases
+}
+
+func protoNontrivial(ops []string, outs []string) bool {
+	for i, o := range ops {
+		if i < len(outs) && strings.HasPrefix(o, "p.elect") && strings.HasPrefix(outs[i], "leader=") && i > 2 {
+			return true
+		}
+	}
+	return false
+}
+
+type C04 struct{ protoTarget }
+
+func (C04) Generate(rng *rand.Rand, tier string) []core.Case { return genProtoCases(rng, tier, "C04") }
+func (C04) Exec(ops []string, outs []string)                 { protoExecOps(ops, outs) }
+func (C04) Oracle(ops, impl, model []string) string          { return protoOracle(ops, impl, "C04") }
+func (C04) Nontrivial(ops []string, outs []string) bool      { return protoNontrivial(ops, outs) }
+
+type C05 struct{ protoTarget }
+
+func (C05) Generate(rng *rand.Rand, tier string) []core.Case { return genProtoCases(rng, tier, "C05") }
+func (C05) Exec(ops []string, outs []string)                 { protoExecOps(ops, outs) }
+func (C05) Oracle(ops, impl, model []string) string          { return protoOracle(ops, impl, "C05") }
+func (C05) Nontrivial(ops []string, outs []string) bool      { return protoNontrivial(ops, outs) }
+
+type C01 struct{ protoTarget }
+
+func (C01) Generate(rng *rand.Rand, tier string) []core.Case { return genProtoCases(rng, tier, "C01") }
+func (C01) Exec(ops []string, outs []string)                 { protoExecOps(ops, outs) }
+func (C01) Oracle(ops, impl, model []string) string          { return protoOracle(ops, impl, "C01") }
+func (C01) Nontrivial(ops []string, outs []string) bool      { return protoNontrivial(ops, outs) }
+
+type C02 struct{ protoTarget }
+
+func (C02) Generate(rng *rand.Rand, tier string) []core.Case { return genProtoCases(rng, tier, "C02") }
+func (C02) Exec(ops []string, outs []string)                 { protoExecOps(ops, outs) }
+func (C02) Oracle(ops, impl, model []string) string          { return protoOracle(ops, impl, "C02") }
+func (C02) Nontrivial(ops []string, outs []string) bool      { return protoNontrivial(ops, outs) }
